@@ -257,7 +257,20 @@ pub fn direct_cubic(ctx: &CaseCtx) -> CaseReport {
                     let before = cc.window();
                     note!("set_mss({new_mss})");
                     cc.set_mss(new_mss);
-                    // the dispatcher re-applies the peer window right after changing the MSS
+                    // The dispatcher applies the peer window *before* it changes the MSS for the same
+                    // packet, and sends in that same poll: the upper bound must hold right away.
+                    let stale = cc.window();
+                    rep.counters.inc("c15_upper_bound_checked_right_after_mss_change");
+                    if stale > rwnd_bytes + 1 {
+                        rep.violate(
+                            P,
+                            "window-above-peer-window",
+                            "cubic after-mss-change".to_string(),
+                            format!("op {i}: right after MSS {mss} -> {new_mss} the window is {stale} bytes, the peer window {rwnd_bytes} (history {:?})", hist),
+                            None,
+                        );
+                    }
+                    // the next packet re-applies the peer window
                     cc.set_remote_window(rwnd_bytes);
                     let after = cc.window();
                     rep.counters.inc("c15_mss_changes_checked");
@@ -667,10 +680,15 @@ pub fn direct_wire_grid(ctx: &CaseCtx) -> CaseReport {
 
 /// Random byte strings, random mutations of valid packets, and header round trips.
 pub fn direct_wire_random(ctx: &CaseCtx) -> CaseReport {
+    let n = if ctx.tier == Tier::Quick { 3000 } else { 30000 };
+    direct_wire_random_n(ctx, n)
+}
+
+/// `n` strings / mutations / header values (small `n` for the Miri pass).
+pub fn direct_wire_random_n(ctx: &CaseCtx, n: usize) -> CaseReport {
     const P: &str = "C11";
     let mut rep = CaseReport::new(ctx.family, ctx.index, ctx.case_seed);
     let mut rng = Prng::new(ctx.case_seed);
-    let n = if ctx.tier == Tier::Quick { 3000 } else { 30000 };
     let mut h = FNV_INIT;
     for _ in 0..n {
         match rng.below(4) {
